@@ -26,6 +26,7 @@ import (
 	"github.com/syndtr/goleveldb/leveldb/util"
 
 	"verif/harness/internal/vt"
+	"verif/harness/internal/wl"
 )
 
 type drv struct {
@@ -68,6 +69,9 @@ type drv struct {
 	opCount    map[string]int
 	afterFault int
 	summary    func() map[string]interface{}
+	known      map[int64]bool
+	kmu        sync.Mutex
+	installs   int
 	fmu        sync.Mutex
 }
 
@@ -1114,6 +1118,213 @@ func (d *drv) doReopenF() {
 	d.fatal("reopen keeps failing after the faults stopped")
 }
 
+// ---- engine hooks: version installations, references, removals (C06, C07) ----
+
+func ik3(u *vt.Universe, ik []byte) []int {
+	uk, seq, kind, err := leveldb.VerifParseInternalKey(ik)
+	if err != nil {
+		return []int{-9, 0, 0}
+	}
+	return []int{u.Rank(uk), int(seq), kind}
+}
+
+func (d *drv) tableDesc(t leveldb.VerifTable) vt.Ev {
+	fd := leveldb.VerifTableFd(t.Num)
+	e := vt.Ev{"num": t.Num, "level": t.Level, "size": t.Size, "imin": ik3(d.u, t.Imin), "imax": ik3(d.u, t.Imax)}
+	data, ok := d.stor.Data(fd)
+	e["exists"] = b2i(ok)
+	e["fsize"] = len(data)
+	ents, corr, err := wl.ScanTable(d.stor, fd, d.row.O, d.u)
+	if err != nil {
+		corr = -1
+	}
+	e["corrupt"] = corr
+	l := make([][3]int, 0, len(ents))
+	for _, x := range ents {
+		l = append(l, [3]int{x.K, int(x.Seq), x.Kind})
+	}
+	e["ents"] = l
+	return e
+}
+
+func (d *drv) hookEngine() {
+	sid := func() uintptr {
+		if d.db == nil {
+			return 0
+		}
+		return leveldb.VerifSessionID(d.db)
+	}
+	_ = sid
+	d.known = map[int64]bool{}
+	d.stor.OnOp = func(op *vt.Op) {
+		if op.Kind == vt.OpRemove && op.Fd.Type == storage.TypeTable && !op.Err {
+			d.kmu.Lock()
+			delete(d.known, op.Fd.Num) // the number may be reused by a new table
+			d.kmu.Unlock()
+			d.tr.Emit(vt.Ev{"ev": "stremove", "num": op.Fd.Num})
+		}
+	}
+	leveldb.VerifSetHooks(&leveldb.VerifHooks{
+		Install: func(in *leveldb.VerifInstall) {
+			if in.Closing {
+				d.tr.Emit(vt.Ev{"ev": "session-end"})
+				return
+			}
+			var lv [][]int64
+			var tabs []vt.Ev
+			for _, l := range in.Levels {
+				nums := []int64{}
+				for _, t := range l {
+					nums = append(nums, t.Num)
+					d.kmu.Lock()
+					kn := d.known[t.Num]
+					d.known[t.Num] = true
+					d.kmu.Unlock()
+					if !kn {
+						tabs = append(tabs, d.tableDesc(t))
+					}
+				}
+				lv = append(lv, nums)
+			}
+			if tabs == nil {
+				tabs = []vt.Ev{}
+			}
+			if lv == nil {
+				lv = [][]int64{}
+			}
+			d.installs++
+			d.tr.Emit(vt.Ev{"ev": "install", "old": in.OldID, "new": in.NewID, "levels": lv, "tabs": tabs, "nadd": len(in.Added), "ndel": len(in.Deleted)})
+		},
+		Ref: func(_ uintptr, kind string, vid int64, files [][]int64, added, deleted []int64) {
+			if kind == "ref" || kind == "rel" {
+				d.tr.Emit(vt.Ev{"ev": "vref", "kind": kind, "vid": vid})
+			}
+		},
+	})
+}
+
+// settlePoint: release every reader, let background work drain, then compare the
+// storage listing with what the DB still needs (C07, second sentence).
+func (d *drv) settlePoint() {
+	d.releaseAll()
+	for h, s := range d.snaps {
+		s.Release()
+		d.emit(vt.Ev{"ev": "snaprel", "h": h})
+		delete(d.snaps, h)
+	}
+	if d.tx != nil {
+		d.doTxEnd(false)
+	}
+	leveldb.VerifWaitIdle(d.db)
+	leveldb.VerifFileRefs(d.db) // round trip through the reference loop: earlier messages are processed
+	_, lv := leveldb.VerifVersion(d.db)
+	leveldb.VerifFileRefs(d.db)
+	live := []int64{}
+	for _, l := range lv {
+		for _, t := range l {
+			live = append(live, t.Num)
+		}
+	}
+	sort.Slice(live, func(i, j int) bool { return live[i] < live[j] })
+	cur, frozen := leveldb.VerifJournalNums(d.db)
+	tabs, jr, mf := []int64{}, []int64{}, []int64{}
+	var bytes int
+	for _, f := range d.stor.Files() {
+		switch f.Fd.Type {
+		case storage.TypeTable:
+			tabs = append(tabs, f.Fd.Num)
+			bytes += f.Size
+		case storage.TypeJournal:
+			jr = append(jr, f.Fd.Num)
+		case storage.TypeManifest:
+			mf = append(mf, f.Fd.Num)
+		}
+	}
+	meta, _ := d.stor.Meta()
+	d.emit(vt.Ev{"ev": "settled", "tables": tabs, "live": live, "journals": jr, "jcur": cur, "jfrozen": frozen,
+		"manifests": mf, "mcur": meta.Num, "table_bytes": bytes})
+}
+
+// reclaim: delete everything, compact everything: the space must come back.
+func (d *drv) reclaim() {
+	d.settlePoint() // readers pin old data: release them first
+	b := new(leveldb.Batch)
+	ops := []wop{}
+	for k := 0; k < d.u.N(); k++ {
+		b.Delete(d.key(k))
+		ops = append(ops, wop{k: k})
+	}
+	err := d.db.Write(b, nil)
+	d.emit(vt.Ev{"ev": "write", "ops": opsJSON(ops), "err": d.ename(err), "api": "write", "big": 0})
+	err = d.db.CompactRange(util.Range{})
+	d.emit(vt.Ev{"ev": "compact", "lo": 0, "hi": d.u.N(), "err": d.ename(err)})
+	d.settlePoint()
+	bytes := 0
+	for _, f := range d.stor.Files() {
+		if f.Fd.Type == storage.TypeTable {
+			bytes += f.Size
+		}
+	}
+	d.emit(vt.Ev{"ev": "reclaimed", "bytes": bytes, "bound": 4096})
+}
+
+func (d *drv) stepLSM() {
+	r := d.rng.Intn(1000)
+	n := d.u.N()
+	switch {
+	case r < 520:
+		d.writeSome()
+	case r < 560:
+		d.doCompact()
+	case r < 620:
+		if len(d.snaps) < 4 {
+			d.doSnap()
+		} else if h, s := d.anySnap(); s != nil {
+			d.doSnapRel(h, s)
+		}
+	case r < 680:
+		if len(d.its) < 4 {
+			srcs := []string{"db", "snap"}
+			d.doIterNew(srcs[d.rng.Intn(len(srcs))])
+		}
+	case r < 700:
+		if h, it := d.anyIter(); it != nil && len(d.its) > 1 {
+			d.doIterRel(h, it)
+		}
+	case r < 820:
+		// iterators held across many version changes keep returning their frozen view
+		if h, it := d.anyIter(); it != nil {
+			d.walk(h, it, 2+d.rng.Intn(6))
+		} else {
+			d.doGet(d.rng.Intn(n))
+		}
+	case r < 900:
+		d.doGet(d.rng.Intn(n))
+	case r < 925:
+		d.doTxOpen()
+		if d.tx != nil {
+			for i := 0; i < 1+d.rng.Intn(3); i++ {
+				if d.tx != nil {
+					d.doTxWrite()
+				}
+			}
+			if d.tx != nil {
+				d.doTxEnd(d.rng.Intn(3) != 0)
+			}
+		}
+	case r < 960:
+		d.settlePoint()
+	case r < 975:
+		d.settlePoint()
+		d.doReopen(false)
+		d.settlePoint()
+	case r < 985:
+		d.reclaim()
+	default:
+		d.readAll()
+	}
+}
+
 // ---- the programs ----
 
 func (d *drv) writeSome() {
@@ -1132,6 +1343,10 @@ func (d *drv) step() {
 	}
 	if d.mode == "c08" {
 		d.stepC08()
+		return
+	}
+	if d.mode == "c06" {
+		d.stepLSM()
 		return
 	}
 	r := d.rng.Intn(1000)
@@ -1339,7 +1554,7 @@ func main() {
 	d.summary = func() map[string]interface{} {
 		return map[string]interface{}{"mode": *mode, "seed": *seed, "events": tr.N(), "row": row.Desc,
 			"stats": d.stats, "comp": d.comp, "wall_s": time.Since(start).Seconds(), "nkeys": d.u.N(),
-			"opcount": d.opCountCopy(), "injected": d.injected, "fault": *fault}
+			"opcount": d.opCountCopy(), "injected": d.injected, "fault": *fault, "installs": d.installs}
 	}
 	go d.watchdog(time.Duration(*hang)*time.Second, d.summary)
 	if *mode == "c18" {
@@ -1348,6 +1563,9 @@ func main() {
 	if *mode == "c08" {
 		d.plan = parseFault(*fault)
 		d.hookFaults()
+	}
+	if *mode == "c06" {
+		d.hookEngine()
 	}
 	for i := 0; i < *n; i++ {
 		if d.closed && *mode != "c18" {
